@@ -400,7 +400,13 @@ func genLitStr(c *hx.Ctx, r *hx.Rng, eng string) {
 	var o strings.Builder
 	rs := []rune(s)
 	for i := 0; i < len(rs); i++ {
-		if rs[i] == '"' && (i == 0 || rs[i-1] != '\\') {
+		if rs[i] == '\\' && i+1 < len(rs) { // an escape: keep both runes
+			o.WriteRune(rs[i])
+			o.WriteRune(rs[i+1])
+			i++
+			continue
+		}
+		if rs[i] == '"' {
 			o.WriteString(`\"`)
 			continue
 		}
